@@ -3,8 +3,8 @@ package main
 // Intrinsics: sync monitors, channels, maps, goroutines, range iteration.
 
 import (
-	"go/token"
 	"fmt"
+	"go/token"
 	"go/types"
 	"os"
 	"sort"
@@ -50,7 +50,9 @@ func (x *Exec) atCallAsserts(st *State, fr *Frame, callee string, pnames []strin
 			}
 		}
 		x.E.markAssertUsed(fr.fc, ai)
-		x.oblige(st, "assert", labelOr(a.C, "at-call"), x.evalBool(cenv, a.C.E), a.C.Src, where)
+		if g, ok := x.specBool(cenv, a.C.E, "assert:"+labelOr(a.C, "at-call")); ok {
+			x.oblige(st, "assert", labelOr(a.C, "at-call"), g, a.C.Src, where)
+		}
 	}
 }
 
@@ -99,7 +101,10 @@ func (x *Exec) withGhostSets(fr *Frame, callee string, pnames []string, args []V
 			x.bindResults(env, results, res)
 		}
 		for _, a := range sets {
-			v := x.eval(env, a.C.E)
+			v, ok := x.specVal(env, a.C.E, "set:"+a.Ghost)
+			if !ok {
+				continue
+			}
 			if len(v.L) == 1 {
 				st.ghost["ghost!"+a.Ghost] = v.L[0]
 			}
